@@ -1002,13 +1002,21 @@ func (e *ev) binary(x *E) Val {
 		return Bool(re.MatchString(l.S))
 	case "..":
 		a, b := intOf(l, ".."), intOf(r, "..")
+		out := Val{K: KArr}
 		if a > b {
-			leave("descending range")
+			// the range counts down
+			if a-b > 60 {
+				leave("long range")
+			}
+			e.sh.feature("descending-range")
+			for i := a; i >= b; i-- {
+				out.A = append(out.A, Num(float64(i)))
+			}
+			return out
 		}
 		if b-a > 60 && !(e.sh.p.Large && b-a <= 1<<20) {
 			leave("long range")
 		}
-		out := Val{K: KArr}
 		for i := a; i <= b; i++ {
 			out.A = append(out.A, Num(float64(i)))
 		}
